@@ -137,22 +137,26 @@ def model_check(runs, work, stats):
         shutil.rmtree(os.path.join(work, "mc-" + r["name"]), ignore_errors=True)
 
 
-def tlc_dump(module, cfg, work, workers=NCPU, timeout=1800, stats=None, name=None):
-    """Run a generator configuration with -dump and return the list of state dicts."""
+def tlc_dump(module, cfg, work, workers=NCPU, timeout=1800, stats=None, name=None, keep=None):
+    """Run a generator configuration with -dump and return the list of state dicts (keep=(k, r): a deterministic
+    1:k sample chosen by the hash of the state text, taken before parsing)."""
     d = os.path.join(work, "gen-" + (name or module))
     res = run_tlc(module, cfg, d, workers=workers, extra=["-dump", "states"], timeout=timeout)
     if not res["ok"]:
         raise Machinery("generator %s failed:\n%s" % (module, res["out"][-3000:]))
-    states = list(tlaparse.iter_dump(os.path.join(d, "states.dump")))
-    if len(states) != res["distinct"]:
-        raise Machinery("dump of %s: %d states parsed, TLC reports %d" % (module, len(states), res["distinct"]))
+    count = []
+    states = list(tlaparse.iter_dump(os.path.join(d, "states.dump"), keep=keep, count=count))
+    if count[0] != res["distinct"]:
+        raise Machinery("dump of %s: %d states parsed, TLC reports %d" % (module, count[0], res["distinct"]))
     if stats is not None:
         stats["states"] += res["distinct"]
         stats["transitions"] += res["generated"]
         stats["model_runs"].append(dict(name="gen:" + (name or module), module=module, distinct=res["distinct"],
                                         generated=res["generated"], wall_s=round(res["wall"], 1),
-                                        result="generator, all states dumped and replayed"))
-    log("  [G] %-28s %8d states dumped %6.1fs" % (name or module, len(states), res["wall"]))
+                                        result="generator, all states dumped and replayed" if keep is None else
+                                        "generator, all states dumped, 1:%d of them (by hash of the state text) replayed" % keep[0]))
+    log("  [G] %-28s %8d states dumped %6.1fs%s" % (name or module, count[0], res["wall"],
+                                                    "" if keep is None else " (%d kept)" % len(states)))
     shutil.rmtree(d, ignore_errors=True)
     return states
 
